@@ -354,6 +354,36 @@ pub fn mutants(b: &Base, other: &Base, full: bool, rng: &mut Rng, extra_random: 
         push(tok.clone(), "footer-swap", "footer", None);
         push(tok, "footer-swap+matching-expectation", "footer", Some(if nf.is_empty() { None } else { Some(nf.to_string()) }));
     }
+    // 8b. the footer segment replaced by bytes that a LOSSY text decoder would map to the same string: every U+FFFD of the footer
+    //     (EF BF BD) replaced by an invalid UTF-8 sequence; and, for any footer, one byte replaced by an invalid lead/continuation byte
+    if let (Some(fseg), Some(ftxt)) = (pt.footer_b64, b.footer.as_deref()) {
+        let fb = ftxt.as_bytes();
+        for bad in [&[0xFFu8][..], &[0x80][..], &[0xE2, 0x82][..], &[0xC3][..], &[0xF0, 0x9F][..]] {
+            let mut out_bytes: Vec<u8> = Vec::new();
+            let mut i = 0;
+            let mut replaced = false;
+            while i < fb.len() {
+                if fb[i..].starts_with(&[0xEF, 0xBF, 0xBD]) {
+                    out_bytes.extend_from_slice(bad);
+                    i += 3;
+                    replaced = true;
+                } else {
+                    out_bytes.push(fb[i]);
+                    i += 1;
+                }
+            }
+            if replaced {
+                push(format!("{}{}.{}", hdr, pt.payload_b64, util::b64(&out_bytes)), "footer-fffd-to-invalid-utf8", "footer", None);
+            }
+            if !fb.is_empty() {
+                let mut v = fb.to_vec();
+                let pos = v.len() / 2;
+                v.splice(pos..pos + 1, bad.iter().copied());
+                push(format!("{}{}.{}", hdr, pt.payload_b64, util::b64(&v)), "footer-byte-to-invalid-utf8", "footer", None);
+            }
+        }
+        let _ = fseg;
+    }
     // 9. signature re-encodings
     if p == P::V3P && n >= 96 {
         let (msg, sig) = pt.payload.split_at(n - 96);
@@ -598,6 +628,7 @@ pub fn run(tier: &str, seed: u64) -> Report {
         (json_msg(&"z".repeat(60)), Some("f"), None, true),
         (json_msg("\u{1F980}\u{e9}"), None, None, true),
         ("long footer".into(), Some(LONG_FOOTER), None, false),
+        (json_msg("replacement char in the footer"), Some("kid:\u{FFFD}7\u{FFFD}"), None, true),
     ];
     if thorough {
         for i in 0..44 {
@@ -642,6 +673,15 @@ pub fn run(tier: &str, seed: u64) -> Report {
         for m in &ms {
             eval(&b, layer, m, r);
         }
+        // a rejected alteration must STAY rejected: present a sample of the same mutants a second and a third time
+        for round in 0..2 {
+            for m in ms.iter().step_by(if layer == Layer::Core { 37 } else { 5 }) {
+                let mut again = m.clone();
+                again.op = format!("{}+re-presented", m.op);
+                eval(&b, layer, &again, r);
+            }
+            let _ = round;
+        }
     });
     total.merge(r);
     for &p in &ALL {
@@ -670,4 +710,4 @@ pub fn replay(case: &Value) -> Report {
 /// 900 bytes -> 1200 base64 characters: room for truncations by 256, 512, 768 and 1024 characters
 const LONG_FOOTER: &str = "{\"kid\":\"0123456789abcdefghijklmnopqrstuvwxyzABCDEFGHIJKLMNOPQRSTUVWXYZ0123456789abcdefghijklmnopqrstuvwxyzABCDEFGHIJKLMNOPQRSTUVWXYZ0123456789abcdefghijklmnopqrstuvwxyzABCDEFGHIJKLMNOPQRSTUVWXYZ0123456789abcdefghijklmnopqrstuvwxyzABCDEFGHIJKLMNOPQRSTUVWXYZ0123456789abcdefghijklmnopqrstuvwxyzABCDEFGHIJKLMNOPQRSTUVWXYZ0123456789abcdefghijklmnopqrstuvwxyzABCDEFGHIJKLMNOPQRSTUVWXYZ0123456789abcdefghijklmnopqrstuvwxyzABCDEFGHIJKLMNOPQRSTUVWXYZ0123456789abcdefghijklmnopqrstuvwxyzABCDEFGHIJKLMNOPQRSTUVWXYZ0123456789abcdefghijklmnopqrstuvwxyzABCDEFGHIJKLMNOPQRSTUVWXYZ0123456789abcdefghijklmnopqrstuvwxyzABCDEFGHIJKLMNOPQRSTUVWXYZ0123456789abcdefghijklmnopqrstuvwxyzABCDEFGHIJKLMNOPQRSTUVWXYZ0123456789abcdefghijklmnopqrstuvwxyzABCDEFGHIJKLMNOPQRSTUVWXYZ0123456789abcdefghijklmnopqrstuvwxyzABCDEFGHIJKLMNOPQRSTUVWXYZ0123456789abcdefghijklmnopqrstuvwxyzABCDEFGHIJKLMNOPQRSTUVWXYZ0123456789abcdefghijklmnopqrstuvwxyzABCDEFGHIJKLMNOPQRSTUVWXYZ0123456789\"}";
 
-pub const RULE: &str = "per protocol, authentic base tokens (6 quick / 50 thorough: empty, 1-byte, 20-byte, JSON messages; footer and assertion present/absent) are built with the real library and self-checked; mutants: ALL single-bit flips of the decoded payload, ALL single-character substitutions of the token text over the 64 alphabet characters plus '= + / . space é', every proper prefix, suffix extensions (short, and long ones of 4..65536 characters incl. exact multiples of 256 on the token and on a 1200-character footer segment, with matching long truncations), byte deletion/insertion at the nonce/ciphertext/tag and message/signature boundaries, every position of the payload/footer dot, splices of two authentic tokens, footer swaps (with original and with matching expectation), non-canonical base64 (trailing bits, padding, standard alphabet), ECDSA s/r negation, Ed25519 S+L, seeded random multi-byte edits (thorough: double bit flips in the tag/signature). Each mutant is presented to the core entry point (full sweep) and, for JSON bases, to GenericParser and PasetoParser::default() carrying a logging validator. Verdict per call: Ok with other content, Ok outside the two tolerated classes, a UTF-8/JSON/claim error, a validator log entry, a keystream hook event during a rejected call, or a panic is a violation. distinct_nontrivial = distinct (protocol, layer, operator, region) tuples whose mutant passed segment/header/base64 checks and was rejected by the cryptographic check";
+pub const RULE: &str = "per protocol, authentic base tokens (6 quick / 50 thorough: empty, 1-byte, 20-byte, JSON messages; footer and assertion present/absent) are built with the real library and self-checked; mutants: ALL single-bit flips of the decoded payload, ALL single-character substitutions of the token text over the 64 alphabet characters plus '= + / . space é', every proper prefix, suffix extensions (short, and long ones of 4..65536 characters incl. exact multiples of 256 on the token and on a 1200-character footer segment, with matching long truncations), byte deletion/insertion at the nonce/ciphertext/tag and message/signature boundaries, every position of the payload/footer dot, splices of two authentic tokens, footer swaps (with original and with matching expectation), non-canonical base64 (trailing bits, padding, standard alphabet), ECDSA s/r negation, Ed25519 S+L, seeded random multi-byte edits (thorough: double bit flips in the tag/signature), footer bytes replaced by invalid UTF-8 sequences (incl. every U+FFFD of a footer that contains it); a sample of the mutants is presented a second and a third time (a rejection must stay a rejection). Each mutant is presented to the core entry point (full sweep) and, for JSON bases, to GenericParser and PasetoParser::default() carrying a logging validator. Verdict per call: Ok with other content, Ok outside the two tolerated classes, a UTF-8/JSON/claim error, a validator log entry, a keystream hook event during a rejected call, or a panic is a violation. distinct_nontrivial = distinct (protocol, layer, operator, region) tuples whose mutant passed segment/header/base64 checks and was rejected by the cryptographic check";
